@@ -115,7 +115,7 @@ def _c12_dump_events(run, d):
 
 def c12_dump_part(ck, quick):
     from . import dumps
-    runs = dumps.run_scenarios(ck, _c12_dump_scenarios(quick, ck.seed), "c12_dumps")
+    runs = dumps.run_scenarios(ck, _c12_dump_scenarios(quick, ck.seed) + [s_ for s_ in dumps.cross_scenarios(quick, ck.seed, n=(24 if quick else 240)) if s_["writer"].get("sanitize")], "c12_dumps")
     evs = [e for r in runs for d in r["dumps"] for e in _c12_dump_events(r, d)]
     evs += [{"ev": "failed", "origin": r["id"]} for r in runs if not r["dumps"]]
     out = os.path.join(ck.work, "c12_dumps.ndjson")
